@@ -847,6 +847,14 @@ func (e *Engine) execPreparedStmts(ctx context.Context, tx *SQLTx, stmts []SQLSt
 			}
 		}
 
+		// a read-only transaction refuses a statement that is not read-only before it runs:
+		// DDL statements change the in-memory catalog first and write to the store afterwards,
+		// and a read-only transaction shares the engine's cached catalog
+		if currTx.opts.ReadOnly && !stmt.readOnly() {
+			currTx.Cancel()
+			return nil, committedTxs, stmts[execStmts:], store.ErrReadOnlyTx
+		}
+
 		ntx, err := stmt.execAt(ctx, currTx, nparams)
 		if err != nil {
 			currTx.Cancel()
